@@ -149,6 +149,9 @@ def check_bf(G, centers, d, m, p):
             return f'node {j}: predecessor {q} is not a neighbour'
         if ref[q] is None or ref[q] + W[(q, j)] != ref[j]:
             return f'node {j}: predecessor {q} is not on a shortest path'
+        if m[q] != m[j]:
+            return (f'node {j} is labelled with centre index {int(m[j])} but its predecessor {q} with {int(m[q])}: the '
+                    f'predecessor chain does not lead to the nearest centre the node is assigned to')
     return None
 
 
@@ -369,6 +372,31 @@ def part_b(ctx, graphs):
                     viol('symmetric_rcm: the result is not a symmetric permutation of the input', {'routine': 'rcm', 'A': A.tolist()})
             except Exception as ex:
                 viol(f'symmetric_rcm raised {type(ex).__name__}: {ex}', {'routine': 'rcm', 'A': A.tolist()})
+            if n <= 6:
+                # no stored diagonal, so isolated vertices are empty rows; the random start may land anywhere:
+                # the result must be P A P^T for SOME permutation P (brute force), for several RNG states
+                A0 = np.triu((M != 0) * rng.integers(1, 9, size=(n, n)).astype(float), 1)
+                A0 = A0 + A0.T
+                Az = _csr(A0)
+                perms = None
+                for rep in range(3):
+                    reg('rcm_nodiag')
+                    np.random.seed(int(rng.integers(2**31)))
+                    try:
+                        Bz = PG.symmetric_rcm(Az)
+                        ok = Bz.shape == (n, n)
+                        if ok:
+                            Bd = Bz.toarray()
+                            if perms is None:
+                                perms = [list(pp) for pp in itertools.permutations(range(n))]
+                            ok = any(np.array_equal(Bd, A0[np.ix_(pp, pp)]) for pp in perms)
+                        if not ok:
+                            viol(f'symmetric_rcm on a matrix with {int((A0.sum(1) == 0).sum())} empty row(s): the result '
+                                 f'(shape {Bz.shape}) is not a symmetric permutation of the input', {'routine': 'rcm_nodiag', 'A': A0.tolist()})
+                            break
+                    except Exception as ex:
+                        viol(f'symmetric_rcm raised {type(ex).__name__}: {ex}', {'routine': 'rcm_nodiag', 'A': A0.tolist()})
+                        break
     outs = ctx.lean(lean_lines)
     for (algo, case0, x), o in zip(lean_meta, outs):
         ctx.feat('lean_checker:mis')
